@@ -57,6 +57,12 @@ RecClauses ==
           THEN {"X06.FileKeyDeletedByRefresh"} ELSE {})
     \cup (IF R.result = "ok" /\ \E k \in Keys : R.ring0[k] = "absent" /\ R.ring[k] # "absent"
           THEN {"X07.ForeignKeyLeftInKeyring"} ELSE {})
+    \* success without asking the key server, although some key of the file got no IMPORT_OK from the WKD data
+    \cup (IF /\ R.result = "ok" /\ \A j \in DOMAIN R.events : R.events[j].ev # "refresh"
+             /\ \E k \in Keys : /\ R.ring0[k] # "absent"
+                                 /\ \A j \in DOMAIN R.events :
+                                       R.events[j].ev = "import" => k \notin SeqSet(R.events[j].ok)
+          THEN {"X08.OkWithoutRefreshingEveryKey"} ELSE {})
     \* the command line on a consistent tree signed by A: status 0 only if the refresh succeeded and A's
     \* signature is acceptable afterwards; the isolated home is removed whatever happens
     \cup (IF R.cli.ran /\ R.cli.exit = 0 /\ ~(R.result = "ok" /\ R.accept["A"]) THEN {"C05.CliAcceptsDespiteRefresh"} ELSE {})
@@ -99,8 +105,7 @@ TraceNext ==
              \* a revocation that was delivered and imported, refresh reported success, the key still accepted
              /\ ((result = "ok" /\ R.result = "ok" /\ \E k \in Present(ring0) : Delivered(k) /\ R.accept[k])
                     => PrintT(<<"V", R.id, "C05.DeliveredRevocationIgnored">>))
-             /\ ((result = "ok" /\ R.result = "ok" /\ ~usedKs /\ ~(Present(ring0) \subseteq seen))
-                    => PrintT(<<"V", R.id, "X08.OkWithoutRefreshingEveryKey">>))
+             /\ TRUE
 
 TraceSpec == TraceInit /\ [][TraceNext]_tvars
 =============================================================================
